@@ -195,7 +195,7 @@ func gen(g *hx.Gen) {
 			g.Emit("x s=%s p=%s d=%s alias=0", hx.Hex(r.Bytes(ls)), hx.Hex(r.Bytes(lp)), hx.Hex(r.Bytes(32)))
 		case c < 14:
 			g.Stat("base")
-			g.Emit("base s=%s d=%s", hx.Hex(scalar(g)), hx.Hex(r.Bytes(32)))
+			g.Emit("base s=%s d=%s alias=%d", hx.Hex(scalar(g)), hx.Hex(r.Bytes(32)), r.Intn(2))
 		case c < 19:
 			g.Stat("dh")
 			g.Emit("dh a=%s b=%s", hx.Hex(scalar(g)), hx.Hex(scalar(g)))
@@ -218,76 +218,181 @@ func res(out []byte, err error) string {
 	return "ok:" + hx.Hex(out)
 }
 
+// garr is a [32]byte in/out parameter with sentinel bytes on both sides (ScalarMult takes arrays,
+// so hx.Arena's slices do not apply).
+type garr struct {
+	pre  [16]byte
+	v    [32]byte
+	post [16]byte
+}
+
+func newG(content []byte) *garr {
+	g := &garr{}
+	for i := range g.pre {
+		g.pre[i] = byte(0xa5 ^ i)
+		g.post[i] = byte(0x5a ^ i)
+	}
+	copy(g.v[:], content)
+	return g
+}
+
+func (g *garr) slackOK() bool {
+	for i := range g.pre {
+		if g.pre[i] != byte(0xa5^i) || g.post[i] != byte(0x5a^i) {
+			return false
+		}
+	}
+	return true
+}
+
+// muts collects caller-memory violations; the model always answers "mut=-".
+type muts []string
+
+func (m *muts) add(cond bool, name string) {
+	if cond {
+		*m = append(*m, name)
+	}
+}
+func (m *muts) arena(a *hx.Arena) {
+	if c := a.Check(); c != "-" {
+		*m = append(*m, c)
+	}
+}
+func (m muts) String() string {
+	if len(m) == 0 {
+		return "-"
+	}
+	out := m[0]
+	for _, x := range m[1:] {
+		out += "," + x
+	}
+	return out
+}
+
+// scribble overwrites a slice up to its capacity.
+func scribble(b []byte) {
+	b = b[:cap(b)]
+	for i := range b {
+		b[i] ^= byte(0x3c + i)
+	}
+}
+
+var basepointCopy = [32]byte{9}
+
 func exec(line string) string {
 	o := hx.Parse(line)
+	var m muts
 	switch o.Cmd {
 	case "x":
-		s, pt, d, al := o.Hex("s"), o.Hex("p"), o.Hex("d"), o.Int("alias")
-		s0, p0 := bytes.Clone(s), bytes.Clone(pt)
+		sB, pB, d, al := o.Hex("s"), o.Hex("p"), o.Hex("d"), o.Int("alias")
+		ar := hx.NewArena()
+		s, pt := ar.In("s", sB), ar.In("p", pB)
 		out, err := curve25519.X25519(s, pt)
-		if !bytes.Equal(s, s0) || !bytes.Equal(pt, p0) {
-			return "mutated-input"
+		m.arena(ar) // inputs, their spare capacity and their neighbourhood untouched
+		outC := bytes.Clone(out)
+		// the result must not alias the inputs, nor the result of another call
+		scribble(s)
+		scribble(pt)
+		out2, _ := curve25519.X25519(bytes.Clone(sB), bytes.Clone(pB))
+		out2C := bytes.Clone(out2)
+		m.add(!bytes.Equal(out, outC), "out-aliases-input")
+		if len(out) > 0 && len(out2) > 0 {
+			scribble(out)
+			m.add(!bytes.Equal(out2, out2C), "out-shared-between-calls")
 		}
+		m.add(!bytes.Equal(out2C, outC), "second-call-differs")
 		sm := "-"
-		if len(s) == 32 && len(pt) == 32 {
-			var dst, sc, q [32]byte
-			copy(dst[:], d)
-			copy(sc[:], s)
-			copy(q[:], pt)
+		if len(sB) == 32 && len(pB) == 32 {
+			dst, sc, q := newG(d), newG(sB), newG(pB)
+			var r *garr
 			switch al {
 			case 0:
-				curve25519.ScalarMult(&dst, &sc, &q)
-				if sc != [32]byte(s) || q != [32]byte(pt) {
-					return "mutated-input"
-				}
-			case 1:
-				curve25519.ScalarMult(&sc, &sc, &q)
-				dst = sc
-			case 2:
-				curve25519.ScalarMult(&q, &sc, &q)
-				dst = q
+				curve25519.ScalarMult(&dst.v, &sc.v, &q.v)
+				r = dst
+				m.add(sc.v != [32]byte(sB), "sm.scalar")
+				m.add(q.v != [32]byte(pB), "sm.point")
+			case 1: // dst == scalar
+				curve25519.ScalarMult(&sc.v, &sc.v, &q.v)
+				r = sc
+				m.add(q.v != [32]byte(pB), "sm.point")
+			case 2: // dst == point
+				curve25519.ScalarMult(&q.v, &sc.v, &q.v)
+				r = q
+				m.add(sc.v != [32]byte(sB), "sm.scalar")
 			}
-			sm = hx.Hex(dst[:])
+			m.add(!dst.slackOK() || !sc.slackOK() || !q.slackOK(), "sm.slack")
+			sm = hx.Hex(r.v[:])
 		}
-		return fmt.Sprintf("x=%s sm=%s", res(out, err), sm)
+		m.add([32]byte(curve25519.Basepoint) != basepointCopy, "Basepoint")
+		return fmt.Sprintf("x=%s sm=%s mut=%s", res(outC, err), sm, m)
 	case "base":
-		s, d := o.Hex("s"), o.Hex("d")
-		var dst, sc [32]byte
-		copy(dst[:], d)
-		copy(sc[:], s)
-		curve25519.ScalarBaseMult(&dst, &sc)
-		x1 := res(curve25519.X25519(s, curve25519.Basepoint)) // the package's own slice (may take a fast path)
-		b := make([]byte, 32)
-		b[0] = 9
-		x2 := res(curve25519.X25519(s, b))
+		sB, d, al := o.Hex("s"), o.Hex("d"), o.Int("alias")
+		dst, sc := newG(d), newG(sB)
+		r := dst
+		if al == 1 { // ScalarBaseMult(&k, &k)
+			curve25519.ScalarBaseMult(&sc.v, &sc.v)
+			r = sc
+		} else {
+			curve25519.ScalarBaseMult(&dst.v, &sc.v)
+			m.add(sc.v != [32]byte(sB), "sbm.scalar")
+		}
+		m.add(!dst.slackOK() || !sc.slackOK(), "sbm.slack")
+		ar := hx.NewArena()
+		s := ar.In("s", sB)
+		o1, e1 := curve25519.X25519(s, curve25519.Basepoint) // the package's own slice (may take a fast path)
+		x1 := res(bytes.Clone(o1), e1)
+		b := ar.In("b", basepointCopy[:])
+		o2, e2 := curve25519.X25519(s, b)
+		x2 := res(bytes.Clone(o2), e2)
+		m.arena(ar)
+		m.add([32]byte(curve25519.Basepoint) != basepointCopy, "Basepoint")
+		if len(o1) > 0 { // the result must not be (a view of) the package-level Basepoint
+			scribble(o1)
+			m.add([32]byte(curve25519.Basepoint) != basepointCopy, "out-aliases-Basepoint")
+		}
 		if x1 != x2 {
 			return "basepoint-paths-differ " + x1 + " " + x2
 		}
-		return fmt.Sprintf("sbm=%s x=%s", hx.Hex(dst[:]), x1)
+		return fmt.Sprintf("sbm=%s x=%s mut=%s", hx.Hex(r.v[:]), x1, m)
 	case "dh":
-		a, b := o.Hex("a"), o.Hex("b")
-		var pa, pb, sa, sb [32]byte
-		copy(sa[:], a)
-		copy(sb[:], b)
-		curve25519.ScalarBaseMult(&pa, &sa)
-		curve25519.ScalarBaseMult(&pb, &sb)
-		k1, e1 := curve25519.X25519(a, pb[:])
-		k2, e2 := curve25519.X25519(b, pa[:])
+		aB, bB := o.Hex("a"), o.Hex("b")
+		ar := hx.NewArena()
+		a, b := ar.In("a", aB), ar.In("b", bB)
+		pa, pb, sa, sb := newG(nil), newG(nil), newG(aB), newG(bB)
+		curve25519.ScalarBaseMult(&pa.v, &sa.v)
+		curve25519.ScalarBaseMult(&pb.v, &sb.v)
+		pbs, pas := ar.In("pb", pb.v[:]), ar.In("pa", pa.v[:])
+		k1, e1 := curve25519.X25519(a, pbs)
+		k2, e2 := curve25519.X25519(b, pas)
+		m.arena(ar)
+		m.add(sa.v != [32]byte(aB) || sb.v != [32]byte(bB), "sbm.scalar")
+		m.add(!pa.slackOK() || !pb.slackOK() || !sa.slackOK() || !sb.slackOK(), "sbm.slack")
 		agree := 0
 		if (e1 == nil) == (e2 == nil) && bytes.Equal(k1, k2) {
 			agree = 1
 		}
-		return fmt.Sprintf("pa=%s pb=%s k1=%s k2=%s agree=%d", hx.Hex(pa[:]), hx.Hex(pb[:]), res(k1, e1), res(k2, e2), agree)
+		return fmt.Sprintf("pa=%s pb=%s k1=%s k2=%s agree=%d mut=%s", hx.Hex(pa.v[:]), hx.Hex(pb.v[:]), res(k1, e1), res(k2, e2), agree, m)
 	case "iter":
+		// the RFC iteration twice: through X25519 on slices, and through the legacy ScalarMult on the
+		// SAME three arrays reused in place (result array rotates), which must give the same values
 		k, u, n := o.Hex("k"), o.Hex("u"), o.Int("n")
+		ka, ua, ta := newG(k), newG(u), newG(nil)
 		for i := 0; i < n; i++ {
-			r, err := curve25519.X25519(k, u)
+			ar := hx.NewArena()
+			ks, us := ar.In("k", k), ar.In("u", u)
+			r, err := curve25519.X25519(ks, us)
+			m.arena(ar)
+			curve25519.ScalarMult(&ta.v, &ka.v, &ua.v)
+			m.add(!ka.slackOK() || !ua.slackOK() || !ta.slackOK(), "sm.slack")
 			if err != nil {
-				return fmt.Sprintf("err@%d", i)
+				m.add(ta.v != [32]byte{}, "legacy-differs")
+				return fmt.Sprintf("err@%d mut=%s", i, m)
 			}
-			k, u = r, k
+			m.add(ta.v != [32]byte(r), "legacy-differs")
+			k, u = bytes.Clone(r), k
+			ka, ua, ta = ta, ka, ua // in place: old u array becomes the next destination (holds stale data)
 		}
-		return "ok:" + hx.Hex(k)
+		return "ok:" + hx.Hex(k) + " mut=" + m.String()
 	}
 	return "bad-op"
 }
